@@ -16,6 +16,15 @@ Ltac h_cbn := cbn [h_in_sess h_in_conn h_ack_final h_ack_inter h_modulate h_tx_m
   gen_rx_setup gen_rx_teardown fst snd app map negb andb orb].
 Ltac hp_norm := h_cbn; p_norm; h_cbn.
 Ltac hp_split := repeat (hp_norm; first [known_step | case_step]); hp_norm.
+(** A close decided by _check_sess_term happens on an idle endpoint: the queue of
+    unstarted transfers is empty there, so the report-on-close loop adds nothing. *)
+Ltac idle_facts :=
+  repeat match goal with E : _ && _ = true |- _ =>
+           let a := fresh "Ei" in let b := fresh "Ei" in apply andb_true_iff in E; destruct E as [a b] end;
+  repeat match goal with E : is_nil ?l = true |- _ => let El := fresh "El" in destruct l eqn:El; [|discriminate E]; clear E end.
+Ltac close_norm :=
+  unfold close_txmap, close_pend, close_trace; hp_split; idle_facts;
+  cbn [flush_map fold_left flush_events map app].
 Ltac hh_unfold :=
   c_handle_msg; unfold check_sess_term, is_sess_idle, raise, ok, send_msg; opq.
 
@@ -38,12 +47,12 @@ Section Data.
   Ltac data_start := subst g r; unfold gen_recv_xfer_data, is_none, rx_id, rx_is, rx_len, rx_write; hh_unfold.
 
   Lemma data_outcome : snd g = outcome_code (snd r).
-  Proof. data_start. hp_split; data_leaf. Qed.
+  Proof. data_start. hp_split; close_norm; data_leaf. Qed.
   Lemma data_rx_tmp : h_rx_tmp (fst g) = h_rx_tmp (habs (fst r)).
-  Proof. data_start. hp_split; data_leaf. Qed.
+  Proof. data_start. hp_split; close_norm; data_leaf. Qed.
   Lemma data_rx_map : h_rx_map (fst g) = rabs (rx_map (fst r)).
   Proof.
-    data_start. unfold rabs. hp_split; data_leaf.
+    data_start. unfold rabs. hp_split; close_norm; data_leaf.
     all: repeat match goal with
                 | |- context [map (fun it : N * bytes => (fst it, N.of_nat (length (snd it)))) ?l] =>
                     change (map (fun it : N * bytes => (fst it, N.of_nat (length (snd it)))) l) with (rabs l)
@@ -51,22 +60,22 @@ Section Data.
       rewrite <- ?rabs_dict_set; rewrite ?app_length, ?Nat2N.inj_add, ?N.add_0_l; reflexivity.
   Qed.
   Lemma data_sent : sent (fst r) = sent s ++ map FMsg (h_sent (fst g)).
-  Proof. data_start. hp_split; rewrite ?app_nil_r; data_leaf. Qed.
+  Proof. data_start. hp_split; close_norm; rewrite ?app_nil_r; data_leaf. Qed.
   Lemma data_flags : h_in_sess (fst g) = in_sess (fst r) /\ h_in_conn (fst g) = in_conn (fst r)
     /\ h_tx_map (fst g) = tx_map (fst r) /\ h_pend_ack (fst g) = pend_ack (fst r)
     /\ h_tx_len (fst g) = tx_len (fst r) /\ h_pq (fst g) = pq_set (fst r).
-  Proof. data_start. hp_split; repeat split; data_leaf. Qed.
+  Proof. data_start. hp_split; close_norm; repeat split; data_leaf. Qed.
   Lemma data_events : exists tail, trace (fst r) = trace s ++ h_events (fst g) ++ tail
     /\ (tail = [] \/ (tail = [EClosed] /\ h_check (fst g) = true)).
   Proof.
-    data_start. hp_split; unfold close_trace; hp_split;
+    data_start. hp_split; close_norm;
       repeat match goal with E : (_ =? _) = true |- _ => apply N.eqb_eq in E; try subst end;
       rewrite ?app_length, ?Nat2N.inj_add, ?N.add_0_l;
       first [ exists []; rewrite ?app_nil_r, <- ?app_assoc; split; [reflexivity|left; reflexivity]
             | exists [EClosed]; rewrite ?app_nil_r, <- ?app_assoc; split; [reflexivity|right; split; reflexivity] ].
   Qed.
   Lemma data_closed : h_check (fst g) = false -> closed (fst r) = closed s.
-  Proof. data_start. hp_split; intros H; data_leaf. Qed.
+  Proof. data_start. hp_split; close_norm; intros H; data_leaf. Qed.
 End Data.
 
 Theorem tie_xfer_data s fl xid ext data :
